@@ -448,7 +448,7 @@ _ADDED6 = {
     "C14": "(Lifecycle) script otherkey: after each datagram of a live association the same client socket sends one under the other configured key; the association's lower and upper bounds stand and at shutdown every association ever reported is removed exactly once with no goroutine or socket left. ",
     "C15": "(Mem) the real StreamHandler on an in-memory client conn that returns at most 1..70000 bytes per Read and, in half of the cases, its last bytes together with io.EOF; valid streams (0..50000 bytes each way, status OK, all four counters equal to what the conns carried) and random streams of 0..20000 bytes (probe report and client->proxy counter equal to the stream's length). Non-trivial (Mem) = last bytes with io.EOF or reads shorter than 51 bytes. ",
     "C16": "(worlds) a reply too large to be relayed is reported with a status other than OK and with 0 bytes sent to the client. ",
-    "C17": "(E2E, fake-time engine) 1..8 successive connections through the real StreamHandler (replay history 0/5/100) reporting to the real collector: valid, random, a replay of an accepted handshake, the server's own response stream sent back; the client stays 0 ms..1 h; tunnel_time_seconds per key must equal the time authenticated connections of that key were open (refused connections held open contribute nothing). Non-trivial (E2E) = a connection that does not authenticate is held for >=1 s. ",
+    "C17": "(Ledger) num_ids (a quarter of the cases): the keys are called 23, 3 and 1 and the clients are 20.0.0.1, 20.0.0.12 (and 20.0.0.123), so that address and id of different clients read alike when joined. (E2E, fake-time engine) 1..8 successive connections through the real StreamHandler (replay history 0/5/100) reporting to the real collector: valid, random, a replay of an accepted handshake, the server's own response stream sent back; the client stays 0 ms..1 h; tunnel_time_seconds per key must equal the time authenticated connections of that key were open (refused connections held open contribute nothing). Non-trivial (E2E) = a connection that does not authenticate is held for >=1 s. ",
     "C18": "(ServeStop) handlers of generated connections fail (panic) instead of returning; once StreamServe has returned every client must see its connection end within 3 s (the server-side conns stay referenced by the test, so no finalizer closes a forgotten socket). ",
     "C08": "(Volume) 40 (thorough 4000) generated keys with 24/32-byte salts; the key's own salt generator is asked for 250 000 salts each (10 million in the quick tier) and every salt must be recognised as the server's own for that key, differ from its predecessor, and (one in 1024) not be recognised by a key with another secret. Non-trivial (Volume) = the batch contained salts that open like another protocol. ",
     "C11": "id_clash (a third of the cases): every configuration has one more service, rendered after the retained one, on an address of its own, whose key carries the retained key's id with another cipher and secret. ",
